@@ -1,5 +1,7 @@
 import IstioModel.C13.ClaTheorems
 import IstioModel.C13.ConcTheorems
+import IstioModel.C13.NetTheorems
+import IstioModel.C13.Svc
 
 /-!
 # C13 - the parts composed
@@ -216,5 +218,96 @@ theorem served_endpoints_exact_concurrent (ops : List Op) (sched : List Nat) (b 
   obtain ⟨hperm, heq⟩ := index_linearizable ops sched hd
   rw [heq] at h
   exact ⟨hperm, fun e => served_endpoints_exact _ b k gs h e⟩
+
+/-! ## Multi-network meshes: what is served vs the latest reports -/
+
+/-- `e` is a member (for this builder) of some registry's latest report for service `k`. -/
+def LatestMember (ops : List Op) (b : Builder) (k : Key) (e : Ep) : Prop :=
+  ∃ sk eps, latestReports ops k sk = some eps ∧ shardRead b sk = true ∧ e ∈ eps ∧ member b e = true
+
+theorem buildCLA_groups (b : Builder) (x : Option ShardSet) (gs : List Group) (h : buildCLA b x = some gs) :
+    ∃ l, gs = groupByLocality l := by
+  unfold buildCLA at h
+  split at h
+  · cases h
+  · next l _ => exact ⟨_, (Option.some.inj h).symm⟩
+
+/-- **served_endpoints_exact for `serveCLA` (multi-network meshes).** After any history, what a proxy
+    is served for a cluster of service `k` when network gateways are configured: the locality groups
+    are those of the members of the latest reports (`LatestMember`), each passed through the
+    network filter; an endpoint is served iff it is the own address of a member the proxy reaches
+    directly (`route = direct`, see `routeSpec`), or the endpoint of a gateway that some member **of
+    that locality** is routed through, with the saturating sum of those members' shares as weight. -/
+theorem served_endpoints_exact_net (ops : List Op) (b : Builder) (all : List Gw) (k : Key)
+    (ogs : List OutGroup) (hne : all ≠ []) (hall : all.Nodup)
+    (h : serveCLA b all (run Index.empty ops k) = some ogs) :
+    ∃ gs, buildCLA b (run Index.empty ops k) = some gs ∧ ogs = gs.map (filterGroup b all) ∧
+      (∀ e, e ∈ gs.flatMap (·.eps) ↔ LatestMember ops b k e) ∧
+      (∀ g ∈ gs, ∀ e ∈ g.eps, e.loc = g.loc) ∧
+      ∀ le, le ∈ ogs.flatMap (·.eps) ↔
+        (∃ e, LatestMember ops b k e ∧ route b all e = .direct le) ∨
+        (∃ gw g, g ∈ gs ∧ (∃ e ∈ g.eps, routedVia b all gw e) ∧
+          le = gwEndpoint gw (min ((g.eps.map (shareOf b all gw)).sum) maxU32)) := by
+  unfold serveCLA at h
+  cases hb : buildCLA b (run Index.empty ops k) with
+  | none => simp [hb] at h
+  | some gs =>
+    have hemp : all.isEmpty = false := by cases all <;> simp_all
+    simp only [hb, Option.map_some, Option.some.injEq, networkFilter, hemp, Bool.false_eq_true, if_false] at h
+    subst h
+    have hmem : ∀ e, e ∈ gs.flatMap (·.eps) ↔ LatestMember ops b k e :=
+      fun e => served_endpoints_exact ops b k gs hb e
+    obtain ⟨l, hl⟩ := buildCLA_groups b _ gs hb
+    have hloc : ∀ g ∈ gs, ∀ e ∈ g.eps, e.loc = g.loc := by
+      intro g hg e he
+      rw [hl] at hg
+      exact ((grouped_by_locality l).2 g hg).2 e he
+    refine ⟨gs, rfl, rfl, hmem, hloc, ?_⟩
+    intro le
+    simp only [List.mem_flatMap, List.mem_map]
+    constructor
+    · rintro ⟨og, ⟨g, hg, rfl⟩, hle⟩
+      rcases (filterGroup_endpoints b all g le).mp hle with ⟨e, he, hr⟩ | ⟨gw, hvia, rfl⟩
+      · left
+        exact ⟨e, (hmem e).mp (List.mem_flatMap.mpr ⟨g, hg, he⟩), hr⟩
+      · right
+        refine ⟨gw, g, hg, hvia, ?_⟩
+        rw [gateway_weight_per_locality b all hall]
+    · rintro (⟨e, hlm, hr⟩ | ⟨gw, g, hg, hvia, rfl⟩)
+      · obtain ⟨g, hg, he⟩ := List.mem_flatMap.mp ((hmem e).mpr hlm)
+        exact ⟨_, ⟨g, hg, rfl⟩, (filterGroup_endpoints b all g le).mpr (Or.inl ⟨e, he, hr⟩)⟩
+      · refine ⟨_, ⟨g, hg, rfl⟩, (filterGroup_endpoints b all g _).mpr (Or.inr ⟨gw, hvia, ?_⟩)⟩
+        rw [gateway_weight_per_locality b all hall]
+
+/-! ## The CDS-time snapshot of a service's endpoints -/
+
+/-- **service_endpoints_exact.** `PushContext.ServiceEndpointsByPort` of a PushContext initialised
+    after any history (through `EndpointShards.CopyEndpoints`) returns exactly the endpoints of the
+    registries' latest reports that belong to the service port - by their legacy port key if they
+    have one, else by port name - and carry the labels. -/
+theorem service_endpoints_exact (ops : List Op) (k : Key) (portMap : List (String × Nat)) (port : Nat)
+    (labels : List (String × String)) (e : Ep) :
+    e ∈ serviceEndpointsByPort (run Index.empty ops k) portMap port labels ↔
+      ∃ sk eps, latestReports ops k sk = some eps ∧ e ∈ eps ∧ portOf portMap e = some port ∧
+        subsetOf labels e.labels = true := by
+  have hview : ∀ sk, view (run Index.empty ops) k sk = latestReports ops k sk := by
+    intro sk; rw [run_refines]; rfl
+  cases hs : run Index.empty ops k with
+  | none =>
+    constructor
+    · intro he; simp [serviceEndpointsByPort] at he
+    · rintro ⟨sk, eps, hl, _⟩
+      rw [← hview, view, hs] at hl; cases hl
+  | some ss =>
+    have hwf : (keysOf ss.shards).Nodup := wf_run ops _ wf_empty k ss hs
+    simp only [serviceEndpointsByPort, copyEndpoints, Option.map_some, Option.getD_some, List.mem_filter,
+      List.mem_flatMap, beq_iff_eq]
+    constructor
+    · rintro ⟨⟨⟨⟨sk, eps⟩, hmem, he⟩, hp⟩, hl⟩
+      refine ⟨sk, eps, ?_, he, hp, hl⟩
+      rw [← hview, view, hs]; exact (mem_iff_alookup _ hwf sk eps).mp hmem
+    · rintro ⟨sk, eps, hlr, he, hp, hl⟩
+      rw [← hview, view, hs] at hlr
+      exact ⟨⟨⟨(sk, eps), (mem_iff_alookup _ hwf sk eps).mpr hlr, he⟩, hp⟩, hl⟩
 
 end IstioModel.C13
